@@ -1132,6 +1132,9 @@ void tickit_term_pause(TickitTerm *tt)
 
   if(tt->termkey)
     termkey_stop(tt->termkey);
+
+  /* the mode-reset sequences must reach the terminal before the caller stops the process */
+  tickit_term_flush(tt);
 }
 
 void tickit_term_resume(TickitTerm *tt)
